@@ -187,10 +187,7 @@ struct Built {
 fn build(c: &Case) -> Result<Built, String> {
     let dir = tempfile::tempdir().map_err(|e| e.to_string())?;
     let path = dir.path().join("c11.mv2");
-    let t0 = std::time::Instant::now();
-    let timing = std::env::var("C11_TIMING").is_ok();
     let mut mem = Memvid::create(&path).map_err(|e| format!("create: {e}"))?;
-    if timing { eprintln!("create {:?}", t0.elapsed()); }
     mem.enable_lex().map_err(|e| format!("enable_lex: {e}"))?;
     for (i, d) in c.docs.iter().enumerate() {
         let mut o = PutOptions::default();
@@ -202,9 +199,7 @@ fn build(c: &Case) -> Result<Built, String> {
         o.instant_index = false;
         mem.put_bytes_with_options(doc_text(i, d).as_bytes(), o).map_err(|e| format!("put {i}: {e}"))?;
     }
-    if timing { eprintln!("puts {:?}", t0.elapsed()); }
     mem.commit().map_err(|e| format!("commit: {e}"))?;
-    if timing { eprintln!("commit {:?}", t0.elapsed()); }
     let mut any = false;
     for id in &c.deletes {
         if (*id as usize) < c.docs.len() && mem.delete_frame(*id).is_ok() { any = true; }
@@ -243,7 +238,6 @@ fn run_query(b: &mut Built, c: &Case, qi: usize, cx: &mut Ctx) {
     let has_as_of = q.as_of_frame.is_some() || q.as_of_ts.is_some();
 
     // (1) the real code
-    let tq = std::time::Instant::now();
     let filtered = do_search(&mut b.mem, request(q, &text, true, q.top_k, q.cursor, q.no_sketch));
     let unf_page = do_search(&mut b.mem, request(q, &text, false, q.top_k, q.cursor, q.no_sketch));
     let unf_full = do_search(&mut b.mem, request(q, &text, false, big, None, q.no_sketch));
@@ -259,7 +253,6 @@ fn run_query(b: &mut Built, c: &Case, qi: usize, cx: &mut Ctx) {
         Some(b.mem.find_sketch_candidates(&text, Some(opts)).iter().map(|c| c.frame_id).collect())
     } else { None };
 
-    if std::env::var("C11_TIMING").is_ok() { eprintln!("query {qi} real part {:?}", tq.elapsed()); }
     // (2) the model
     let m_known: Vec<u64> = (0..c.docs.len()).filter(|i| frames[*i].2 && doc_matches(&c.docs[*i], q)).map(|i| i as u64).collect();
     let frames_s = if frames.is_empty() { "-".to_string() } else {
@@ -306,7 +299,6 @@ fn run_query(b: &mut Built, c: &Case, qi: usize, cx: &mut Ctx) {
     if frames.iter().any(|f| !f.2) { s.branch("deleted-frames"); }
     if !filtered.hits.is_empty() { s.branch("filtered-has-hits"); }
     if let Some(e) = &filtered.err { s.branch(if e.contains("cursor") { "err-cursor" } else { "err-other" }); }
-    let ts_of = |id: u64| frames.get(id as usize).map(|f| f.1);
 
     // (3) model vs implementation
     if let Some(model) = &model {
@@ -357,7 +349,6 @@ fn run_query(b: &mut Built, c: &Case, qi: usize, cx: &mut Ctx) {
             }
         }
     }
-    let _ = ts_of;
     if has_as_of && filtered.err.is_none() {
         let full = set(&unf_full.hits);
         let extra: Vec<u64> = set(&filtered.hits).difference(&full).copied().collect();
